@@ -6,7 +6,8 @@ Require Import WD.Proofs.C11KernelProofs WD.Proofs.C11ReaderProofs.
 
 Definition with_mask (C : cfg) (M : N) : cfg :=
   {| c_recursive := c_recursive C; c_mask := M; c_root := c_root C; c_fix_ignored := c_fix_ignored C;
-     c_fix_movein := c_fix_movein C; c_fix_simulate := c_fix_simulate C; c_faults := c_faults C |}.
+     c_fix_movein := c_fix_movein C; c_fix_simulate := c_fix_simulate C; c_fix_moveout := c_fix_moveout C;
+     c_faults := c_faults C |}.
 
 Section RT.
   Variable C : cfg.
@@ -14,8 +15,9 @@ Section RT.
   Hypothesis HM : c_mask C = M.
   Let C' := with_mask C M'.
 
-  (* twins with nothing unread (the reader is handed the batch separately) *)
-  Definition kw0 (k k' : kst) : Prop := kwt M M' k k' /\ k_queue k = [] /\ k_queue k' = [].
+  (* twins with the same unread records (the reader is handed the batch separately; what it queues itself -
+     the IN_IGNORED of the watches it removes, repair F10 - is the same on both sides) *)
+  Definition kw0 (k k' : kst) : Prop := kwt M M' k k' /\ k_queue k = k_queue k'.
 
   Definition rel3 (a : rstate * kst * list raw) (b : rstate * kst * list raw) : Prop :=
     fst (fst a) = fst (fst b) /\ snd a = snd b /\ kw0 (snd (fst a)) (snd (fst b)).
@@ -34,12 +36,12 @@ Section RT.
     | _, _ => False
     end.
   Proof.
-    intros [T [Q Q']]. unfold add_watch. cbn [C' with_mask c_faults c_mask]. rewrite HM.
+    intros [T Q]. unfold add_watch. cbn [C' with_mask c_faults c_mask]. rewrite HM.
     destruct (mem_nat (calls r) (c_faults C)); [exact I|].
     pose proof (kadd_watch_twin M M' k k' t p T) as H.
     destruct (kadd_watch k t p M) as [[k1 wd]|], (kadd_watch k' t p M') as [[k1' wd']|]; try contradiction; [|exact I].
     destruct H as [-> [T1 [E1 E1']]]. split; [reflexivity|]. split; [reflexivity|].
-    split; [exact T1|]. split; congruence.
+    split; [exact T1|]. congruence.
   Qed.
 
   Lemma sim_dirs_twin t root ds : forall r k k' acc, kw0 k k' ->
@@ -90,7 +92,7 @@ Section RT.
     snd (ro_move C t r k e wdp) = snd (ro_move C' t r k' e wdp) /\
     kw0 (snd (fst (ro_move C t r k e wdp))) (snd (fst (ro_move C' t r k' e wdp))).
   Proof.
-    intros K. unfold ro_move. cbn [C' with_mask c_recursive c_fix_movein].
+    intros K. unfold ro_move. cbn [C' with_mask c_recursive c_fix_movein c_fix_moveout].
     destruct (is_moved_from (k_mask e)); [repeat split; try reflexivity; apply K|].
     destruct (is_moved_to (k_mask e)); [|repeat split; try reflexivity; apply K].
     set (sp := match k_name e with [] => wdp | _ => join wdp (k_name e) end).
@@ -111,11 +113,37 @@ Section RT.
   Lemma ro_ignored_twin r e : ro_ignored C r e = ro_ignored C' r e.
   Proof. reflexivity. Qed.
 
-  Lemma read_one_twin t r k k' acc e : kw0 k k' ->
-    orel (read_one C t (r, k, acc) e) (read_one C' t (r, k', acc) e).
+  (* _forget_tree on twins: same keys popped, same watches removed, same IN_IGNORED records queued *)
+  Lemma forget_tree_twin keys p : forall r k k', kw0 k k' ->
+    fst (forget_tree keys p r k) = fst (forget_tree keys p r k') /\
+    kw0 (snd (forget_tree keys p r k)) (snd (forget_tree keys p r k')).
   Proof.
-    intros K. rewrite !read_one_factored.
-    destruct (alookup N.eqb (k_wd e) (pfw r)) as [wdp|]; [|reflexivity].
+    induction keys as [|[q x] keys IH]; intros r k k' K; cbn [forget_tree]; [split; [reflexivity | exact K]|].
+    destruct (beqb q p || starts (p ++ [sep]) q); [|apply IH; exact K].
+    destruct (alookup beqb q (wfp r)) as [wd|]; [|apply IH; exact K].
+    destruct (alookup N.eqb wd (pfw r)) as [q'|]; [|apply IH; exact K].
+    destruct (beqb q' q); [|apply IH; exact K].
+    apply IH. destruct K as [T Q]. destruct (krm_watch_twin M M' k k' wd T Q) as [T1 Q1]. split; assumption.
+  Qed.
+
+  Lemma settle_twin r k k' e : kw0 k k' ->
+    fst (settle_pending C r k e) = fst (settle_pending C' r k' e) /\
+    kw0 (snd (settle_pending C r k e)) (snd (settle_pending C' r k' e)).
+  Proof.
+    intros K. unfold settle_pending. cbn [C' with_mask c_fix_moveout].
+    destruct (c_fix_moveout C); [|split; [reflexivity | exact K]].
+    destruct (pend r) as [[c p]|]; [|split; [reflexivity | exact K]].
+    destruct (is_moved_to (k_mask e) && N.eqb (k_cookie e) c && amem N.eqb (k_wd e) (pfw r)); [split; [reflexivity | exact K]|].
+    apply forget_tree_twin. exact K.
+  Qed.
+
+  Lemma read_one_body_twin t r k k' acc e : kw0 k k' ->
+    orel (read_one_body C t (r, k, acc) e) (read_one_body C' t (r, k', acc) e).
+  Proof.
+    intros K. rewrite !read_one_body_factored.
+    destruct (alookup N.eqb (k_wd e) (pfw r)) as [wdp|].
+    2:{ cbn [C' with_mask c_fix_moveout]. destruct (c_fix_moveout C); [|reflexivity].
+        repeat split; try reflexivity; apply K. }
     destruct (ro_move_twin t r k k' e wdp K) as [H1 [H2 H3]].
     destruct (ro_move C t r k e wdp) as [[r1 k1] ev1], (ro_move C' t r k' e wdp) as [[r1' k1'] ev1'].
     cbn [fst snd] in *. subst r1' ev1'. rewrite <- ro_ignored_twin.
@@ -128,6 +156,14 @@ Section RT.
       + destruct H as [-> [-> K3]]. apply simulate_twin. exact K3.
       + repeat split; try reflexivity; apply H3.
     - repeat split; try reflexivity; apply H3.
+  Qed.
+
+  Lemma read_one_twin t r k k' acc e : kw0 k k' ->
+    orel (read_one C t (r, k, acc) e) (read_one C' t (r, k', acc) e).
+  Proof.
+    intros K. rewrite !read_one_settle.
+    destruct (settle_twin r k k' e K) as [H1 H2]. rewrite <- H1.
+    apply read_one_body_twin. exact H2.
   Qed.
 
   Theorem read_batch_twin t b : forall r k k' acc, kw0 k k' ->
@@ -152,7 +188,7 @@ Section RT.
     unfold construct. cbn [C' with_mask c_root c_recursive].
     destruct (fisdir (c_root C) t); [|exact I].
     assert (K0 : kw0 kinit kinit).
-    { split; [|split; reflexivity]. constructor; try reflexivity. intros w []. }
+    { split; [|reflexivity]. constructor; try reflexivity. intros w []. }
     pose proof (add_watch_twin rinit0 kinit kinit t (c_root C) K0) as H.
     destruct (add_watch C rinit0 kinit t (c_root C)) as [[[r1 k1] wd]|],
              (add_watch C' rinit0 kinit t (c_root C)) as [[[r1' k1'] wd']|]; try contradiction; [|exact I].
